@@ -69,8 +69,34 @@ def c17Fall : Op := fun j => do
       return encNats (returnStats what vialSel seeds rows)
     return Json.mkObj [("rows", Json.arr (rows.map encFallRow).toArray), ("answers", Json.arr answers.toArray)]
 
+/-- `c17_fallhist`: a history `["run", statsList] | ["table"]` on one Snowfall object -/
+def c17FallHist : Op := fun j => do
+  let labels ← strs j "labels"
+  let steps ← arr j "steps"
+  let mut f : Fall Nat := { statsList := [], cache := none }
+  let mut out : Array Json := #[]
+  for st in steps do
+    let a := (← st.getArr?).toList
+    match a with
+    | [tag] =>
+      if (← tag.getStr?) = "table" then
+        let r := Fall.toFrame labels f
+        f := r.2
+        match r.1 with
+        | .ok rows => out := out.push (Json.mkObj [("rows", Json.arr (rows.map encFallRow).toArray)])
+        | .error e => out := out.push (Json.mkObj [("raise", Json.str e)])
+      else throw "bad step"
+    | [tag, sl] =>
+      if (← tag.getStr?) = "run" then
+        f := f.run (← (← sl.getArr?).toList.mapM decStats)
+        out := out.push (Json.mkObj [])
+      else throw "bad step"
+    | _ => throw "bad step"
+  return Json.mkObj [("out", Json.arr out)]
+
 def framesOps : List (String × Op) := [
   ("c17_flake", c17Flake),
-  ("c17_fall", c17Fall)]
+  ("c17_fall", c17Fall),
+  ("c17_fallhist", c17FallHist)]
 
 end Snow.Ops
